@@ -138,7 +138,8 @@ fn renderings(inp: &CircuitInputs, prover: bool) -> Vec<(&'static str, String)> 
 }
 
 fn c32_case(rng: &mut Rng, t: &mut Tally, prover: bool, sample: bool) {
-    let depth = 1 + rng.usize(6);
+    // depth 0..=16 (every depth; shallow ones more often)
+    let depth = if rng.chance(1, 3) { rng.usize(17) } else { rng.usize(7) };
     let hp = HonestParams { depth: Some(depth), dummy: false, ..Default::default() };
     let (mut w, db) = honest_with_digest(rng, &hp);
     // transfer counts and amounts with >= 5 significant digits
@@ -149,13 +150,88 @@ fn c32_case(rng: &mut Rng, t: &mut Tally, prover: bool, sample: bool) {
     w.out2 = 0;
     w.fee = 0;
     w.rebind_all();
-    let inp = to_inputs(&w, &db);
     // control: identical public fields and public-looking header fields, different private fields
     let (mut w2, db2) = honest_with_digest(rng, &hp);
     w2.null_tc = [rng.u32() as u64 | 0x1000_0000, rng.u32() as u64 | 0x1000_0000];
     w2.leaf_tc = w2.null_tc;
     w2.input = (rng.u32() as u64) | 0x1000_0000;
-    let mut ctl = to_inputs(&w2, &db2);
+    c32_render_and_search(&w, &db, &w2, &db2, t, prover, sample, "honest");
+    // The Debug impls are total functions of the data types: they also render witnesses no prover would
+    // accept. Variants keep the private values and take the public/fee-relevant fields through their
+    // classes (fee 0 / 1 / max / out of range, outputs zero / honest / above the input / u32::MAX,
+    // dummy block hash, small transfer-count limbs, input equal to an output), without re-binding hashes.
+    for _ in 0..3 {
+        let mut v = w.clone();
+        let mut label = String::new();
+        v.fee = match rng.below(6) {
+            0 => 0,
+            1 => 1,
+            2 => 10,
+            3 => 9_999,
+            4 => 10_000,
+            _ => 10_001 + rng.below(50_000),
+        };
+        label.push_str(&format!("fee={}", if v.fee > 10_000 { ">max".to_string() } else { v.fee.to_string() }));
+        match rng.below(6) {
+            0 => {
+                v.out1 = 0;
+                v.out2 = 0;
+                label.push_str("|outputs=0");
+            }
+            1 => {
+                // exactly at the fee bound
+                let bound = v.input * (10_000u64.saturating_sub(v.fee.min(10_000))) / 10_000;
+                v.out1 = bound.min(u32::MAX as u64);
+                v.out2 = 0;
+                label.push_str("|outputs=at-bound");
+            }
+            2 => {
+                v.out1 = (v.input + 1 + rng.below(1 << 20)).min(u32::MAX as u64);
+                v.out2 = rng.below(1 << 10);
+                label.push_str("|outputs>input");
+            }
+            3 => {
+                v.out1 = u32::MAX as u64;
+                v.out2 = u32::MAX as u64;
+                label.push_str("|outputs=max");
+            }
+            4 => {
+                v.out1 = rng.below(v.input.max(2));
+                v.out2 = rng.below(v.input.max(2));
+                label.push_str("|outputs=random");
+            }
+            _ => {
+                v.out1 = v.input / 2;
+                v.out2 = v.input - v.input / 2;
+                label.push_str("|outputs=split-of-input");
+            }
+        }
+        if rng.chance(1, 4) {
+            v.block_hash = [0; 4];
+            label.push_str("|dummy-block");
+        }
+        if rng.chance(1, 4) {
+            v.asset = rng.u32() as u64;
+            label.push_str("|asset");
+        }
+        if rng.chance(1, 4) {
+            // positions/siblings inconsistent with the root (renderers must not care)
+            v.root_hash = [rng.felt(), rng.felt(), rng.felt(), rng.felt()];
+            label.push_str("|foreign-root");
+        }
+        let mut c = w2.clone();
+        c.input = (rng.u32() as u64) | 0x1000_0000;
+        c32_render_and_search(&v, &db, &c, &db2, t, false, false, &label);
+    }
+    t.nontrivial(fnv(&refm::d4_to_bytes(&w.null_secret)));
+}
+
+/// Renders every type for `w` and searches the private needles; `w2` supplies the control rendering
+/// (same public fields, different private ones).
+#[allow(clippy::too_many_arguments)]
+fn c32_render_and_search(w: &crate::leaf::LeafW, db: &[u8; 110], w2: &crate::leaf::LeafW, db2: &[u8; 110], t: &mut Tally, prover: bool, sample: bool, label: &str) {
+    let inp = to_inputs(w, db);
+    let mut ctl = to_inputs(w2, db2);
     ctl.public = inp.public.clone();
     ctl.private.parent_hash = inp.private.parent_hash;
     ctl.private.state_root = inp.private.state_root;
@@ -165,17 +241,17 @@ fn c32_case(rng: &mut Rng, t: &mut Tally, prover: bool, sample: bool) {
     let rend = match catch(|| renderings(&inp, prover)) {
         Ok(r) => r,
         Err(p) => {
-            t.violation("C32:debug-panics", format!("a Debug rendering panicked: {}", p), json!({"kind": "c32"}));
+            t.violation("C32:debug-panics", format!("a Debug rendering panicked ({}): {}", label, p), json!({"kind": "c32", "variant": label}));
             return;
         }
     };
     let ctl_rend = catch(|| renderings(&ctl, false)).unwrap_or_default();
     let ctl_all: String = ctl_rend.iter().map(|(_, s)| s.as_str()).collect::<Vec<_>>().join("\n");
     t.evals(rend.len() as u64);
+    t.class(&format!("variant|{}", label.split('|').take(2).collect::<Vec<_>>().join("|")));
     t.count("needles searched", (needles.len() * rend.len()) as u64);
     for (ty, text) in &rend {
         t.class(&format!("rendered|{}", ty));
-        // the derived account of from_secret is compared against the statement's own account needle
         for nd in &needles {
             if text.contains(&nd.text) {
                 if ctl_all.contains(&nd.text) {
@@ -184,13 +260,12 @@ fn c32_case(rng: &mut Rng, t: &mut Tally, prover: bool, sample: bool) {
                 }
                 t.violation(
                     format!("C32:{}:{}", ty.split('(').next().unwrap_or(ty), nd.what),
-                    format!("Debug rendering of {} contains the {} (as '{}')", ty, nd.what, nd.text),
-                    json!({"kind": "c32", "type": ty, "leaked": nd.what, "needle": nd.text, "rendering_excerpt": excerpt(text, &nd.text)}),
+                    format!("Debug rendering of {} contains the {} (as '{}') [{}]", ty, nd.what, nd.text, label),
+                    json!({"kind": "c32", "type": ty, "leaked": nd.what, "needle": nd.text, "variant": label, "rendering_excerpt": excerpt(text, &nd.text)}),
                 );
             }
         }
     }
-    t.nontrivial(fnv(inp.private.secret.as_bytes()));
     if sample {
         t.sample(json!({"types_rendered": rend.iter().map(|r| r.0).collect::<std::collections::BTreeSet<_>>(), "needles": needles.len(), "example_rendering": rend.first().map(|r| r.1.chars().take(300).collect::<String>())}));
     }
@@ -214,7 +289,7 @@ pub fn run_c32(ctx: &Ctx) {
     ctx.set_rule(&format!(
         "{} generated inputs (random secrets/accounts/siblings, transfer counts, input amounts and digest words with >= 5 significant digits), {} of them also through a committed WormholeProver; rendered with {{:?}} and {{:#?}} for PrivateCircuitInputs, CircuitInputs, Nullifier (from inputs and from_preimage), UnspendableAccount (from inputs and from_secret), ZkLeafData, ZkMerkleProofData, HeaderInputs, BlockHeader, committed WormholeProver. \
          Needles: lower/upper hex of the 32 bytes and of every 8-/4-byte chunk in both endiannesses, decimal of every limb, of the u64/u32 values and of every felt of the digest-log encoding. A needle counts only if it is absent from a control rendering that shares the public fields and differs in all private ones. \
-         Oracle: no private needle occurs in any rendering. Non-trivial: every case (all private values have >= 5 significant digits / non-trivial bytes); needles shorter than 5 characters (positions, zero words) are skipped.",
+         Each input is rendered as generated (honest) and in 3 unconstrained variants that keep the private values and move fee (0, 1, 10, 9999, 10000, out of range), outputs (zero, at the fee bound, above the input, u32::MAX, random, a split of the input), dummy block hash, asset and tree root through their classes — Debug impls are total over the data types, not only over provable witnesses. Oracle: no private needle occurs in any rendering. Non-trivial: every case (all private values have >= 5 significant digits / non-trivial bytes); needles shorter than 5 characters (positions, zero words) are skipped.",
         n, n_prover));
     ctx.assume("fields the impls keep visible on purpose (parent hash, state/extrinsics/tree roots, depth, public inputs, the nullifier hash) are never needles");
     let workers = ctx.n_workers();
@@ -288,7 +363,7 @@ fn mk_inputs(secret: &[u8; 32], tc: u64) -> CircuitInputs {
     }
 }
 
-const N_OPS: u64 = 24;
+const N_OPS: u64 = 28;
 
 fn op_name(op: u64) -> &'static str {
     match op {
@@ -315,6 +390,10 @@ fn op_name(op: u64) -> &'static str {
         20 => "UnspendableAccount::from_field_elements",
         21 => "build PrivateCircuitInputs / CircuitInputs",
         22 => "drop one held object",
+        24 => "Nullifier::from_bytes(malformed outside the secret)",
+        25 => "Nullifier::from_field_elements(malformed outside the secret)",
+        26 => "UnspendableAccount::from_bytes(malformed outside the secret)",
+        27 => "UnspendableAccount::from_field_elements(malformed outside the secret)",
         _ => "drop all held objects",
     }
 }
@@ -443,6 +522,85 @@ fn run_sequence(secret: [u8; 32], tc: u64, ops: &[u64], order_seed: u64) -> (Vec
                             held.push(Some(x));
                         }
                     }
+                    24 | 26 => {
+                        // decode error paths: the repo's own serialisation, damaged *outside* the secret
+                        // (length +-k, or one 8-byte limb before/after it made non-canonical), so that a
+                        // decoder that has already copied the secret fails afterwards
+                        let ser: zeroize::Zeroizing<Vec<u8>> = if op == 24 { Nullifier::from_preimage(digest, tc).to_bytes() } else { UnspendableAccount::from_secret(digest).to_bytes() };
+                        let mut m: zeroize::Zeroizing<Vec<u8>> = zeroize::Zeroizing::new(Vec::with_capacity(ser.len() + 16));
+                        m.extend_from_slice(&ser);
+                        let pos = ser.windows(32).position(|w| w == secret).unwrap_or(usize::MAX);
+                        match rs.below(4) {
+                            0 => {
+                                let k = 1 + rs.usize(8);
+                                let l = m.len().saturating_sub(k);
+                                for b in m[l..].iter_mut() {
+                                    *b = 0;
+                                }
+                                m.truncate(l);
+                            }
+                            1 => {
+                                for _ in 0..1 + rs.usize(8) {
+                                    m.push(rs.below(256) as u8);
+                                }
+                            }
+                            _ => {
+                                let limbs: Vec<usize> = (0..m.len() / 8).filter(|i| pos == usize::MAX || i * 8 + 8 <= pos || i * 8 >= pos + 32).collect();
+                                if !limbs.is_empty() {
+                                    let i = limbs[rs.usize(limbs.len())];
+                                    let v: u64 = match rs.below(3) {
+                                        0 => u64::MAX,
+                                        1 => P,
+                                        _ => 1 << 32,
+                                    };
+                                    m[i * 8..i * 8 + 8].copy_from_slice(&v.to_le_bytes());
+                                }
+                            }
+                        }
+                        let r = if op == 24 { Nullifier::from_bytes(&m).ok().map(Held::Null) } else { UnspendableAccount::from_bytes(&m).ok().map(Held::Acct) };
+                        if let Some(x) = r {
+                            held.push(Some(x));
+                        }
+                    }
+                    25 | 27 => {
+                        let ser = if op == 25 { Nullifier::from_preimage(digest, tc).to_field_elements() } else { UnspendableAccount::from_secret(digest).to_field_elements() };
+                        let sf = bytes_to_digest(digest);
+                        let mut m: Vec<F> = Vec::with_capacity(ser.as_slice().len() + 4);
+                        m.extend_from_slice(ser.as_slice());
+                        let pos = m.windows(4).position(|w| w == sf).unwrap_or(usize::MAX);
+                        match rs.below(4) {
+                            0 => {
+                                if let Some(last) = m.last_mut() {
+                                    *last = F::ZERO;
+                                }
+                                m.pop();
+                            }
+                            1 => m.push(F::from_canonical_u64(rs.below(P))),
+                            _ => {
+                                let idx: Vec<usize> = (0..m.len()).filter(|i| pos == usize::MAX || *i < pos || *i >= pos + 4).collect();
+                                if !idx.is_empty() {
+                                    let i = idx[rs.usize(idx.len())];
+                                    m[i] = F::from_canonical_u64(match rs.below(3) {
+                                        0 => 1 << 32,
+                                        1 => P - 1,
+                                        _ => (1 << 32) + rs.below(1 << 20),
+                                    });
+                                }
+                            }
+                        }
+                        let r = if op == 25 { Nullifier::from_field_elements(&m).ok().map(Held::Null) } else { UnspendableAccount::from_field_elements(&m).ok().map(Held::Acct) };
+                        if let Some(x) = r {
+                            held.push(Some(x));
+                        }
+                        // the harness's own copy is scrubbed (whole capacity) before it is released
+                        unsafe {
+                            let p = m.as_mut_ptr();
+                            for i in 0..m.capacity() {
+                                std::ptr::write_volatile(p.add(i), F::ZERO);
+                            }
+                        }
+                        drop(m);
+                    }
                     22 => {
                         let live: Vec<usize> = held.iter().enumerate().filter(|(_, h)| h.is_some()).map(|(i, _)| i).collect();
                         if !live.is_empty() {
@@ -515,7 +673,7 @@ fn derive_secret(seed: u64) -> [u8; 32] {
 pub fn run_c33(ctx: &Ctx) {
     let n = ctx.tier.pick(80_000usize, 2_000_000);
     ctx.set_rule(&format!(
-        "{} generated sequences (length 1..30) over the secret-handling operations: Secret::{{new (valid and invalid, checking the caller's buffer is zeroed), from(BytesDigest), from(Digest), try_from, expose_digest, expose_felts, drop}}, Nullifier::{{new, from_preimage, from(&inputs), to_bytes, from_bytes, to_field_elements, from_field_elements, drop}}, the same eight for UnspendableAccount, building and dropping PrivateCircuitInputs/CircuitInputs, with generated drop order; \
+        "{} generated sequences (length 1..30) over the secret-handling operations: Secret::{{new (valid and invalid, checking the caller's buffer is zeroed), from(BytesDigest), from(Digest), try_from, expose_digest, expose_felts, drop}}, Nullifier::{{new, from_preimage, from(&inputs), to_bytes, from_bytes, to_field_elements, from_field_elements, drop}}, the same eight for UnspendableAccount, the four decoders on encodings damaged outside the secret (length +-k, a limb before or after the secret made non-canonical / above 2^32: error paths taken after the secret has been copied), building and dropping PrivateCircuitInputs/CircuitInputs, with generated drop order; \
          the secret is derived inside the case from a generated seed into a stack array (patterns with a zero limb, a p-1 limb, repeated limbs). The harness allocator, armed on the executing thread, scans every block that thread frees (or reallocates) for the 32-byte image (byte form = little-endian felt form). \
          Oracle: no freed block contains the image unless it is byte-identical to one of the two upstream pad10_to_rate buffers reconstructed for this (secret, transfer count); Secret::new leaves the caller's buffer all-zero for valid and invalid input. Non-trivial: sequence containing a serialisation or hashing call; distinct by (secret seed, op sequence).",
         n));
